@@ -820,7 +820,9 @@ class SVG:
 
                 # stroke may introduce multiple paths
                 assert len(paths) == 1  # oh ye of little faith
-                if paths[0].stroke != "none":
+                # a stroke of zero width is no stroke at all (the stroker would hand back
+                # the shape itself, to be filled with the stroke paint)
+                if paths[0].stroke != "none" and paths[0].stroke_width > 0:
                     paths = list(self._stroke(paths[0]))
 
                 # Any remaining stroke attributes don't do anything
